@@ -137,6 +137,14 @@ func (e *Enc) countCall(cur *pathState, name string, args []Val) {
 			continue
 		}
 		e.set(cur.st, ac, a.T)
+		// passed(f, i): the set of all values passed as argument i by direct calls of f (only
+		// kept for callbacks, where "some call carried x" is what specifications need)
+		if strings.HasPrefix(name, "dyn:") {
+			pc := e.comp(fmt.Sprintf("passed%d_%s", i, sanitize(name)), "(Array "+a.S+" Bool)", "ghost", "G:calls:"+name)
+			if pc.Sort == "(Array "+a.S+" Bool)" {
+				e.set(cur.st, pc, store(e.get(cur.st, pc), a.T, "true"))
+			}
+		}
 	}
 }
 
@@ -163,6 +171,11 @@ func (e *Enc) recordRet(cur *pathState, name string, res Val) {
 		if fc1.Sort == v.S {
 			cc := e.comp("calls_"+sanitize(name), "Int", "ghost", "G:calls:"+name)
 			e.set(cur.st, fc1, ite(eq(e.get(cur.st, cc), "(+ "+cc.Name+".0 1)"), v.T, e.get(cur.st, fc1)))
+		}
+		if v.S == "Bool" && i == 0 && strings.HasPrefix(name, "dyn:") {
+			// alltrue(f): every direct call of callback f so far returned true
+			ac := e.comp("alltrue_"+sanitize(name), "Bool", "ghost", "G:calls:"+name)
+			e.set(cur.st, ac, and(e.get(cur.st, ac), v.T))
 		}
 		if v.S == "Int" && i == 0 {
 			// countret(f, x): how many direct calls of f returned x
